@@ -408,7 +408,7 @@ func init() {
 		return in.tb.SConst(64, v)
 	}
 	V["vxHeld"] = func(in *Interp, fn *ssa.Function, a []Value) Value {
-		c := ptrOf(a[0])
+		c := lockCell(a[0])
 		ls := in.locks[c]
 		n := 0
 		if ls != nil {
@@ -421,7 +421,7 @@ func init() {
 		return in.tb.Const(64, uint64(n))
 	}
 	V["vxHeldW"] = func(in *Interp, fn *ssa.Function, a []Value) Value {
-		c := ptrOf(a[0])
+		c := lockCell(a[0])
 		ls := in.locks[c]
 		return in.tb.BoolC(ls != nil && ls.writer)
 	}
@@ -685,10 +685,10 @@ func init() {
 	// ----- sync -----
 	lock := func(write bool) intrinsicFn {
 		return func(in *Interp, fn *ssa.Function, a []Value) Value {
-			c := ptrOf(a[0])
-			if c == nil {
+			if ptrOf(a[0]) == nil {
 				in.goPanicStr("nil pointer dereference (lock on nil mutex)")
 			}
+			c := lockCell(a[0])
 			ls := in.locks[c]
 			if ls == nil {
 				ls = &lockState{}
@@ -710,7 +710,7 @@ func init() {
 	}
 	unlock := func(write bool) intrinsicFn {
 		return func(in *Interp, fn *ssa.Function, a []Value) Value {
-			c := ptrOf(a[0])
+			c := lockCell(a[0])
 			ls := in.locks[c]
 			if write {
 				if ls == nil || !ls.writer {
@@ -729,7 +729,7 @@ func init() {
 	I["(*sync.Mutex).Lock"] = lock(true)
 	I["(*sync.Mutex).Unlock"] = unlock(true)
 	I["(*sync.Mutex).TryLock"] = func(in *Interp, fn *ssa.Function, a []Value) Value {
-		c := ptrOf(a[0])
+		c := lockCell(a[0])
 		ls := in.locks[c]
 		if ls != nil && (ls.writer || ls.readers > 0) {
 			return in.tb.BoolC(false)
@@ -1051,6 +1051,20 @@ func init() {
 	}
 	I["encoding/binary.bigEndian.Uint32"] = nil
 	delete(I, "encoding/binary.bigEndian.Uint32")
+}
+
+// lockCell: canonical cell identifying a mutex: the address of a struct is the address of its first field, so
+// &LockEntry, &LockEntry.RWMutex and &RWMutex.w all denote the same lock.
+func lockCell(v Value) *Cell {
+	c := ptrOf(v)
+	for c != nil {
+		a, ok := c.v.(*Agg)
+		if !ok || len(a.cells) == 0 {
+			break
+		}
+		c = a.cells[0]
+	}
+	return c
 }
 
 func ptrOf(v Value) *Cell {
